@@ -10,11 +10,12 @@ import (
 )
 
 type prog struct {
-	ID    int    `json:"id"`
-	Class string `json:"class"`
-	Decls string `json:"decls"`
-	Call  string `json:"call"`
-	Mini  string `json:"-"` // Coq term of the program (class mini only)
+	ID     int    `json:"id"`
+	Class  string `json:"class"`
+	Decls  string `json:"decls"`
+	Call   string `json:"call"`
+	Mini   string `json:"-"`                     // Coq term of the program (class mini only)
+	Breaks int    `json:"breakpoints,omitempty"` // breakpoint statements inserted by withBreakpoints
 }
 
 func lit(r *vh.Rng) int { return r.Intn(19) - 6 }
@@ -175,6 +176,94 @@ func genComposite(r *vh.Rng, sfx string) (string, string) {
 	return sb.String(), fmt.Sprintf("run%s()", sfx)
 }
 
+// ---------- class embed: promoted fields and methods through NAMED and UNNAMED struct types ----------
+// every place where a struct type may be written is also exercised with a struct type literal: values, pointers
+// (&struct{...}{...}, new(struct{...})), variables, slice and map elements, fields of a named struct; embedding by
+// value and by pointer; method calls, method values and interface satisfaction through the promoted methods
+func genEmbed(r *vh.Rng, sfx string) (string, string) {
+	var sb strings.Builder
+	in, lb, gt := "In"+sfx, "Lb"+sfx, "Gt"+sfx
+	fmt.Fprintf(&sb, "type %s struct{ A, B int }\n", in)
+	fmt.Fprintf(&sb, "func (i %s) Get() int { return i.A*%d + i.B }\n", in, 2+r.Intn(9))
+	fmt.Fprintf(&sb, "func (i *%s) Set(v int) { i.A = v; emit(v) }\n", in)
+	fmt.Fprintf(&sb, "type %s struct{ Name string }\n", lb)
+	fmt.Fprintf(&sb, "func (l %s) Label() string { return \"<\" + l.Name + \">\" }\n", lb)
+	fmt.Fprintf(&sb, "type %s interface { Get() int }\n", gt)
+	fmt.Fprintf(&sb, "type Ho%s struct {\n\tF struct{ %s }\n\tP *struct{ %s; n int }\n}\n", sfx, in, in)
+	fmt.Fprintf(&sb, "type Nm%s struct{ %s; %s }\n", sfx, in, lb)
+	fmt.Fprintf(&sb, "func run%s() string {\n\tout := \"\"\n", sfx)
+	n := func() int { return 1 + r.Intn(9) }
+	stanzas := []func(k int){
+		func(k int) { // unnamed struct value (addressable variable)
+			fmt.Fprintf(&sb, "\tu%d := struct{ %s; tag string }{%s{%d, %d}, \"t\"}\n\tout += fmt.Sprint(u%d.Get(), u%d.A, u%d.tag)\n\tu%d.Set(%d)\n\tout += fmt.Sprint(u%d.Get())\n", k, in, in, n(), n(), k, k, k, k, n(), k)
+		},
+		func(k int) { // pointer to an unnamed struct
+			fmt.Fprintf(&sb, "\tp%d := &struct{ %s; n int }{%s{%d, %d}, %d}\n\tout += fmt.Sprint(p%d.Get(), p%d.B, p%d.n)\n\tp%d.Set(%d)\n\tout += fmt.Sprint(p%d.A, p%d.Get())\n", k, in, in, n(), n(), n(), k, k, k, k, n(), k, k)
+		},
+		func(k int) { // unnamed struct embedding a pointer and a second type
+			fmt.Fprintf(&sb, "\tq%d := struct{ *%s; %s }{&%s{%d, %d}, %s{\"x%d\"}}\n\tout += fmt.Sprint(q%d.Get(), q%d.Label())\n\tq%d.Set(%d)\n\tout += fmt.Sprint(q%d.B + q%d.Get())\n", k, in, lb, in, n(), n(), lb, k, k, k, k, n(), k, k)
+		},
+		func(k int) { // pointer to an unnamed struct embedding a pointer
+			fmt.Fprintf(&sb, "\tr%d := &struct{ *%s; w int }{&%s{%d, %d}, %d}\n\tr%d.Set(r%d.w)\n\tout += fmt.Sprint(r%d.Get(), r%d.A)\n", k, in, in, n(), n(), n(), k, k, k, k)
+		},
+		func(k int) { // interface satisfied through promotion: unnamed struct value and pointer, named struct
+			fmt.Fprintf(&sb, "\tvar g%d %s = struct{ %s }{%s{%d, %d}}\n\tout += fmt.Sprint(g%d.Get())\n\tg%d = &struct{ %s; z int }{%s{%d, %d}, 0}\n\tout += fmt.Sprint(g%d.Get())\n\tg%d = Nm%s{%s{%d, %d}, %s{\"n\"}}\n\tout += fmt.Sprint(g%d.Get())\n",
+				k, gt, in, in, n(), n(), k, k, in, in, n(), n(), k, k, sfx, in, n(), n(), lb, k)
+		},
+		func(k int) { // method values bound through a pointer to an unnamed struct and through a named struct
+			fmt.Fprintf(&sb, "\tm%d := &struct{ %s }{%s{%d, %d}}\n\tf%d, s%d := m%d.Get, m%d.Set\n\ts%d(%d)\n\tout += fmt.Sprint(f%d(), m%d.Get())\n", k, in, in, n(), n(), k, k, k, k, k, n(), k, k)
+		},
+		func(k int) { // variable of unnamed struct type, new(struct{...})
+			fmt.Fprintf(&sb, "\tvar w%d struct{ %s; k int }\n\tw%d.A, w%d.k = %d, %d\n\tout += fmt.Sprint(w%d.Get(), w%d.k)\n\tn%d := new(struct{ %s; %s })\n\tn%d.B, n%d.Name = %d, \"nn\"\n\tn%d.Set(%d)\n\tout += fmt.Sprint(n%d.Get(), n%d.Label())\n", k, in, k, k, n(), n(), k, k, k, in, lb, k, k, n(), k, n(), k, k)
+		},
+		func(k int) { // slice and map elements of unnamed struct type
+			fmt.Fprintf(&sb, "\txs%d := []struct{ %s }{{%s{%d, %d}}, {%s{%d, %d}}}\n\txs%d[1].Set(%d)\n\tout += fmt.Sprint(xs%d[0].Get(), xs%d[1].Get())\n\tmp%d := map[string]*struct{ %s }{\"k\": {%s{%d, %d}}}\n\tmp%d[\"k\"].Set(%d)\n\tout += fmt.Sprint(mp%d[\"k\"].Get())\n",
+				k, in, in, n(), n(), in, n(), n(), k, n(), k, k, k, in, in, n(), n(), k, n(), k)
+		},
+		func(k int) { // fields of unnamed struct type inside a named struct
+			fmt.Fprintf(&sb, "\tvar h%d Ho%s\n\th%d.F.A = %d\n\th%d.P = &struct{ %s; n int }{%s{%d, %d}, %d}\n\th%d.F.Set(%d)\n\th%d.P.Set(h%d.P.n)\n\tpf%d := &h%d.F\n\tout += fmt.Sprint(h%d.F.Get(), h%d.P.Get(), pf%d.Get())\n", k, sfx, k, n(), k, in, in, n(), n(), n(), k, n(), k, k, k, k, k, k, k)
+		},
+		func(k int) { // named struct, value and pointer (the reference shape)
+			fmt.Fprintf(&sb, "\tv%d := Nm%s{%s{%d, %d}, %s{\"v\"}}\n\tpv%d := &v%d\n\tpv%d.Set(%d)\n\tout += fmt.Sprint(v%d.Get(), pv%d.Label(), pv%d.Get())\n", k, sfx, in, n(), n(), lb, k, k, k, n(), k, k, k)
+		},
+	}
+	for k, cnt := 0, 3+r.Intn(4); k < cnt; k++ {
+		stanzas[r.Intn(len(stanzas))](k)
+		sb.WriteString("\tout += \"|\"\n")
+	}
+	fmt.Fprintf(&sb, "\treturn out\n}\n")
+	return sb.String(), fmt.Sprintf("run%s()", sfx)
+}
+
+// ---------- breakpoint statements ("break" and _ = "break") ----------
+// withBreakpoints inserts breakpoint statements at the start of function, loop and if/else bodies. Without a
+// debugger installed a breakpoint only warns (once) and execution resumes: observations must not change, whatever
+// the options.
+func withBreakpoints(r *vh.Rng, decls string) (string, int) {
+	lines := strings.Split(decls, "\n")
+	var out []string
+	n := 0
+	for _, l := range lines {
+		out = append(out, l)
+		t := strings.TrimSpace(l)
+		if !strings.HasSuffix(t, "{") {
+			continue
+		}
+		starts := strings.HasPrefix(t, "func ") || strings.HasPrefix(t, "for ") || strings.HasPrefix(t, "if ") || strings.HasPrefix(t, "} else") || strings.HasPrefix(t, "defer func()")
+		if !starts || strings.Contains(t, "switch") || !r.Chance(1, 3) {
+			continue
+		}
+		indent := l[:len(l)-len(strings.TrimLeft(l, "\t"))] + "\t"
+		if r.Bool() {
+			out = append(out, indent+"\"break\"")
+		} else {
+			out = append(out, indent+"_ = \"break\"")
+		}
+		n++
+	}
+	return strings.Join(out, "\n"), n
+}
+
 // ---------- class mini: the statement language of coq/C18/Model.v, rendered as Go and as a Coq term ----------
 // variables: 4 globals-of-the-function x0..x3 (frame 0); blocks with one local (pushEnv); functions f0..f2 (no parameters,
 // they work on their own frame and on the package variable acc<sfx>)
@@ -266,6 +355,9 @@ func (g *mgen) stmt(lvl, fi, ind int) (string, string) {
 	case x < 11 && fi+1 < g.nfun:
 		callee := fi + 1 + r.Intn(g.nfun-fi-1)
 		return fmt.Sprintf("%sf%d%s()\n", t, callee, g.sfx), fmt.Sprintf("SCall %d", callee)
+	case x == 11 && r.Chance(1, 2):
+		// breakpoint statement (no debugger is installed: it only warns, once, and execution resumes)
+		return fmt.Sprintf("%s%s\n", t, []string{"\"break\"", "_ = \"break\""}[r.Intn(2)]), "SBreak"
 	}
 	e, c := g.expr(1, fi)
 	return fmt.Sprintf("%semit(%s)\n", t, e), fmt.Sprintf("SEmit (%s)", c)
@@ -291,7 +383,7 @@ func genMini(r *vh.Rng, sfx string) (string, string, string) {
 
 func genProg(r *vh.Rng, id int) *prog {
 	sfx := fmt.Sprintf("P%d", id)
-	classes := []string{"expr", "flow", "closure", "defer", "composite", "mini", "mini"}
+	classes := []string{"expr", "flow", "closure", "defer", "composite", "mini", "mini", "embed"}
 	cl := classes[id%len(classes)]
 	p := &prog{ID: id, Class: cl}
 	switch cl {
@@ -305,8 +397,14 @@ func genProg(r *vh.Rng, id int) *prog {
 		p.Decls, p.Call = genDefer(r, sfx)
 	case "composite":
 		p.Decls, p.Call = genComposite(r, sfx)
+	case "embed":
+		p.Decls, p.Call = genEmbed(r, sfx)
 	case "mini":
 		p.Decls, p.Call, p.Mini = genMini(r, sfx)
+	}
+	if cl != "mini" && r.Chance(1, 3) {
+		// (mini programs carry their breakpoints as SBreak statements, see mgen.stmt)
+		p.Decls, p.Breaks = withBreakpoints(r, p.Decls)
 	}
 	return p
 }
